@@ -214,4 +214,69 @@ static Reg r_table_run("table.run", [](const std::vector<std::string> &a) -> std
   return o;
 });
 
+// table.bulk <n> <seed> <entry 8|16>: insert n distinct scrambled keys (value = insertion number for 16-byte entries),
+// and after every growth of the table (and at the end) audit it against the finite map it must equal: every key inserted
+// so far is found (with its value), insert-if-absent reports a repeat, and keys never inserted are absent.
+namespace {
+struct KEntry {              // the 8-byte entry of dedupe / subtract_lines / vocab
+  typedef uint64_t Key;
+  uint64_t key;
+  uint64_t GetKey() const { return key; }
+  void SetKey(uint64_t to) { key = to; }
+};
+inline uint64_t bulk_key(uint64_t i, uint64_t seed) {      // injective (odd multiplier), never 0 for i >= 1
+  uint64_t k = (i + 1) * 0x9E3779B97F4A7C15ULL + seed * 2;
+  return k ? k : 1;
+}
+template <class Entry, bool HasValue> std::string bulk_run(uint64_t n, uint64_t seed) {
+  typedef util::AutoProbing<Entry, util::IdentityHash> Table;
+  Table t;
+  size_t buckets = t.RawEnd() - t.RawBegin();
+  size_t growths = 0;
+  auto audit = [&](uint64_t upto, const char *when) -> std::string {
+    // all keys for small tables, a stride sample (always including the oldest and newest) for big ones
+    uint64_t stride = upto > 200000 ? upto / 100000 : 1;
+    for (uint64_t j = 0; j < upto; j += (j < 64 || j + 64 >= upto) ? 1 : stride) {
+      typename Table::ConstIterator it;
+      if (!t.Find(bulk_key(j, seed), it)) return std::string("FAIL ") + when + ": key inserted as number " + std::to_string(j) + " of " + std::to_string(upto) + " is reported absent (table of " + std::to_string(t.RawEnd() - t.RawBegin()) + " buckets)";
+      if (HasValue && reinterpret_cast<const uint64_t *>(&*it)[sizeof(Entry) / 8 - 1] != j) return std::string("FAIL ") + when + ": key number " + std::to_string(j) + " lost its value";
+    }
+    for (uint64_t j = 0; j < 64; ++j) {
+      typename Table::ConstIterator it;
+      if (t.Find(bulk_key(n + 7 + j, seed), it)) return std::string("FAIL ") + when + ": a key that was never inserted is reported present";
+    }
+    return "";
+  };
+  for (uint64_t i = 0; i < n; ++i) {
+    Entry e;
+    e.SetKey(bulk_key(i, seed));
+    if (HasValue) reinterpret_cast<uint64_t *>(&e)[sizeof(Entry) / 8 - 1] = i;
+    typename Table::MutableIterator it;
+    if (t.FindOrInsert(e, it)) return "FAIL insert-if-absent reported key number " + std::to_string(i) + " as already there";
+    size_t b = t.RawEnd() - t.RawBegin();
+    if (b != buckets) {
+      buckets = b; ++growths;
+      std::string r = audit(i + 1, "after growth");
+      if (!r.empty()) return r;
+    }
+  }
+  std::string r = audit(n, "at the end");
+  if (!r.empty()) return r;
+  for (uint64_t i = 0; i < n; i += (n > 200000 ? 37 : 1)) {
+    Entry e;
+    e.SetKey(bulk_key(i, seed));
+    typename Table::MutableIterator it;
+    if (!t.FindOrInsert(e, it)) return "FAIL insert-if-absent treated repeated key number " + std::to_string(i) + " as new";
+  }
+  return "ok growths=" + std::to_string(growths) + " buckets=" + std::to_string(buckets) + " bytes=" + std::to_string(buckets * sizeof(Entry));
+}
+}
+static Reg r_table_bulk("table.bulk", [](const std::vector<std::string> &a) -> std::string {
+  if (a.size() != 3) return "bad-op";
+  uint64_t n = strtoull(a[0].c_str(), NULL, 10), seed = strtoull(a[1].c_str(), NULL, 10);
+  try {
+    return a[2] == "8" ? bulk_run<KEntry, false>(n, seed) : bulk_run<TEntry, true>(n, seed);
+  } catch (const std::exception &e) { return std::string("ERR:exception ") + e.what(); }
+});
+
 int main() { return pv::main_loop(); }
